@@ -11,6 +11,7 @@
 -/
 import ZanVerif.Node.CrashCert
 import ZanVerif.Node.Persist
+import ZanVerif.Gen.WalSync
 
 namespace Z.Props.C06
 open Z.LinSpec Z.CrashCert
@@ -70,5 +71,34 @@ example : ∃ s', Z.Persist.Step (fun (a b : Nat) => a + b) 0 ⟨[5], 0, false, 
 example : ∀ i ∈ ([1] : List Nat), i ≤ ([5] : List Nat).length :=
   (C06_served_state (fun (a b : Nat) => a + b) 0
     (Z.Persist.Reach.step exReach (.recoverClean _ rfl rfl rfl)) rfl).2.1
+
+/-! ### the persist-before-publish rule of the raft loop (decision regenerated from node/raft.go shouldWaitWALSync) -/
+
+/-- **nothing unpersisted is handed to the apply loop.**  A Ready carries committed entries ending at (term `tc`, index
+    `ic`) and unstable (not yet persisted) entries starting at (term `tu`, index `iu`) of ONE log, whose terms do not
+    decrease with the index (`hmono`). If the regenerated test says "no need to wait" then every committed entry of the
+    Ready lies strictly below the first unstable one, i.e. is in the WAL already; in the other case processReady persists
+    the Ready first (the order of the two statements is pinned by the translator: `Gen.persistPrecedesPublish`). So a
+    committed entry is applied — and its write acknowledged — only after it is durable, also when this node alone is
+    the quorum. -/
+theorem C06_publish_only_persisted (tc ic tu iu : Int) (hmono : iu ≤ ic → tu ≤ tc)
+    (h : Gen.shouldWait tc ic tu iu = false) : ic < iu := by
+  unfold Gen.shouldWait at h
+  simp only [Bool.or_eq_false_iff, decide_eq_false_iff_not, Bool.and_eq_false_iff, beq_eq_false_iff_ne, ne_eq] at h
+  obtain ⟨h1, h2⟩ := h
+  by_cases hge : iu ≤ ic
+  · have := hmono hge
+    rcases h2 with h2 | h2
+    · omega
+    · omega
+  · omega
+
+/-- the rule is not vacuous in either direction: a single-voter Ready (committed = unstable entry) waits, a follower's
+    Ready whose committed entries are old does not -/
+example : Gen.shouldWait 2 7 2 7 = true ∧ Gen.shouldWait 2 5 2 8 = false ∧ Gen.persistPrecedesPublish = true := by decide
+
+/-- and why `≥` matters (the one-entry Ready of a single-voter group): with a strict comparison the Ready (2,7)/(2,7)
+    would not wait although its committed entry IS the unstable one -/
+example : ¬ ((7 : Int) < 7) := by decide
 
 end Z.Props.C06
